@@ -5,7 +5,9 @@ Tie (K): harness/crates/mdtie textually includes crates/markdown/src/lib.rs and 
          markdown + hrefs (synthetic) and on the (src, hrefs) of real generations; the HTML must equal the HTML rendered
          (by the same pulldown-cmark) from the extracted model's plan.
 TV     : extracted HtmlLinks.check on the anchor tokens of the REAL .html for random documented worlds.
-Search : link statement = HtmlLinks.check; doc-text statement = c29_html.doc_present on the REAL .md."""
+Search : link statement = HtmlLinks.check on the real .html of the worlds AND on the real HTML of the finish loop for the
+         tie's synthetic inputs (a generated link opened inside a link, classified by how the outer link was written);
+         doc-text statement = c29_html.doc_present on the REAL .md."""
 import vf, os, json, hashlib, re
 import genlib, c29_gen, c29_html
 
@@ -129,19 +131,15 @@ def examine(b, items):
         if o.startswith("MODEL-EXN"):
             r["link_errs"].append(("md:checker-crash", o)); continue
         errs = c29_html.decode_errors(o)
-        ah, rh = c29_html.authored_hrefs(r["wit"]), c29_html.raw_html_hrefs(r["wit"])
+        ah, rh, dh = c29_html.authored_hrefs(r["wit"]), c29_html.raw_html_hrefs(r["wit"]), c29_html.refdef_hrefs(r["wit"])
         if any(e[0] == "Nested" for e in errs):
-            for outer, inner in c29_html.nested_pairs(r["tokens"]):
+            for outer, inner, prior in c29_html.nested_pairs(r["tokens"]):
                 if inner in ah and outer in ah:
                     r["stats"]["doc_authored_nestings"] = r["stats"].get("doc_authored_nestings", 0) + 1   # both written by the doc author
-                elif outer in rh:
-                    r["link_errs"].append(("md:nested:generated-link-inside-doc-authored-html-anchor",
-                                           "generated <a href=%r> opened inside the doc-authored raw HTML <a href=%r>" % (inner, outer)))
-                elif outer in ah:
-                    r["link_errs"].append(("md:nested:generated-link-inside-doc-authored-markdown-link",
-                                           "generated <a href=%r> opened inside the doc-authored markdown link <a href=%r> (after a nested autolink reset in_link)" % (inner, outer)))
-                else:
-                    r["link_errs"].append(("md:nested:" + inner, "<a href=%r> opened inside <a href=%r>" % (inner, outer)))
+                    continue
+                kind = "raw" if outer in rh else "reference" if outer in dh else "inline" if outer in ah else None
+                key, text = classify_nesting(kind, prior, outer, inner)
+                r["link_errs"].append((key, text))
         for e in errs:
             if e[0] == "Dangling":
                 r["link_errs"].append(("md:dangling:" + e[1], "href=\"#%s\" has no id/name %r in the document" % (e[1], e[1])))
@@ -151,6 +149,27 @@ def examine(b, items):
                 else:
                     r["link_errs"].append(("md:stray-close", "</a> without an open <a>"))
     return res
+
+
+K_RAW = "md:nested:generated-link-inside-doc-authored-html-anchor"
+K_AUTO = "md:nested:generated-link-inside-doc-authored-markdown-link"
+K_REF = "md:nested:generated-link-inside-doc-authored-reference-link"
+K_INLINE = "md:nested:generated-link-inside-doc-authored-inline-link"
+
+
+def classify_nesting(kind, prior, outer, inner):
+    """key + text for a GENERATED <a href=inner> opened inside <a href=outer>.
+    kind = how the doc author wrote the outer link (raw HTML anchor / inline link / reference, collapsed or shortcut link),
+    None if the outer link is not doc-authored; prior = an authored link (autolink) was already nested in the outer one."""
+    if kind == "raw":
+        return K_RAW, "generated <a href=%r> opened inside the doc-authored raw HTML <a href=%r>" % (inner, outer)
+    if kind in ("inline", "reference") and prior:
+        return K_AUTO, "generated <a href=%r> opened inside the doc-authored markdown link <a href=%r> (after a nested autolink reset in_link)" % (inner, outer)
+    if kind == "reference":
+        return K_REF, "generated <a href=%r> opened inside the doc-authored reference/collapsed/shortcut link <a href=%r>" % (inner, outer)
+    if kind == "inline":
+        return K_INLINE, "generated <a href=%r> opened inside the doc-authored inline link <a href=%r>" % (inner, outer)
+    return "md:nested:" + inner, "<a href=%r> opened inside <a href=%r>" % (inner, outer)
 
 
 def shrink_world(b, item, key, which):
@@ -187,10 +206,13 @@ def tie(b, cases):
     """cases: [(hrefs [(k, v)], markdown)] -> (mismatches [(case, real, model)], stats)"""
     hl = ["\x1c".join("%s\x1d%s" % kv for kv in h) for h, _ in cases]
     ev = vf.run_filter([b["exe_t"], "events"], ["%s\x1e%s" % (h, enc(m)) for h, (_, m) in zip(hl, cases)])
-    evs, real = [], []
+    evs, real, kinds = [], [], []
     for o in ev:
-        a, _, h = o.partition("\x1e")
-        evs.append(a); real.append(h if not o.startswith("PANIC") else o)
+        f = o.split("\x1e")
+        if o.startswith("PANIC") or len(f) != 3:
+            evs.append(""); kinds.append([]); real.append(o)
+        else:
+            evs.append(f[0]); kinds.append(f[1].split()); real.append(f[2])
     plans = vf.run_filter([b["exe_m"]], ["%s\x1e%s" % (h, e) for h, e in zip(hl, evs)])
     rend = vf.run_filter([b["exe_t"], "render"], ["%s\x1e%s" % (p, enc(m)) for p, (_, m) in zip(plans, cases)])
     mism = [(c, r, m) for c, r, m in zip(cases, real, rend) if r != m]
@@ -217,7 +239,71 @@ def tie(b, cases):
             st["hypothesis_violations"] += 1
         if wr and cil:
             nontriv.add(hashlib.sha256(("%r" % (c,)).encode()).hexdigest())
+    st["real_html"], st["link_kinds"] = real, kinds
     return mism, st, nontriv
+
+
+def synthetic_nestings(b, cases, real_html, kinds):
+    """SEARCH on the tie's synthetic inputs: the verified HtmlLinks.check on the REAL HTML of the real finish loop.
+    Generated links are recognisable by their #G_ targets, raw HTML anchors by #q (c29_gen); the k-th other <a href>
+    is the k-th Start(Link) of the markdown, whose kind the harness reports.
+    -> [(case index, key, text)] for every GENERATED link opened inside an open link, stats"""
+    toks = [c29_html.html_tokens(h.replace("\x1f", "\n")) for h in real_html]
+    outs = vf.run_filter([b["exe_c"]], [c29_html.encode(t, ()) for t in toks]) if toks else []
+    found, st = [], {"real_html_checked": len(toks), "with_nested_a_href": 0, "authored_only_nestings": 0, "generated_nestings": 0}
+    for i, (t, o, ks) in enumerate(zip(toks, outs, kinds)):
+        if not any(e[0] == "Nested" for e in c29_html.decode_errors(o)):
+            continue
+        st["with_nested_a_href"] += 1
+        order = c29_html.href_order(t)
+        md_links = [h for h in order if not h.startswith(c29_gen.GEN_PREFIX) and h != c29_gen.RAW_HREF]
+        kind_of = {}
+        if len(md_links) == len(ks):
+            for h, k in zip(md_links, ks):
+                kind_of.setdefault(h, set()).add(k)
+        for outer, inner, prior in c29_html.nested_pairs(t):
+            if not inner.startswith(c29_gen.GEN_PREFIX):
+                st["authored_only_nestings"] += 1
+                continue
+            st["generated_nestings"] += 1
+            if outer == c29_gen.RAW_HREF:
+                kind = "raw"
+            elif outer.startswith(c29_gen.GEN_PREFIX):
+                kind = None
+            else:
+                k = kind_of.get(outer, set())
+                kind = next(iter(k)) if len(k) == 1 else "unclassified"
+                if kind == "autolink":
+                    kind = "inline"
+            if kind == "unclassified":
+                key, text = "md:nested:generated-link-inside-unclassified-link", "generated <a href=%r> opened inside <a href=%r>" % (inner, outer)
+            else:
+                key, text = classify_nesting(kind, prior, outer, inner)
+                if kind is None:
+                    key = "md:nested:generated-link-inside-generated-link"
+            found.append((i, key, text))
+    return found, st
+
+
+def shrink_md(b, case, key):
+    """minimise the markdown (lines, then space-separated fragments) keeping 'the real finish loop nests a generated link with this key'"""
+    h, md = case
+
+    def fails_text(txt):
+        m, st, _ = tie(b, [(h, txt)])
+        f, _ = synthetic_nestings(b, [(h, txt)], st["real_html"], st["link_kinds"])
+        return any(k == key for _, k, _ in f)
+    lines = vf.shrink_list(md.rstrip("\n").split("\n"), lambda ls: fails_text("\n".join(ls) + "\n"), max_steps=120)
+    out = []
+    for i, l in enumerate(lines):
+        fr = vf.shrink_list(l.split(" "), lambda fs: fails_text("\n".join(out + [" ".join(fs)] + lines[i + 1:]) + "\n"), max_steps=60)
+        out.append(" ".join(fr))
+    smd = "\n".join(out) + "\n"
+    m, st, _ = tie(b, [(h, smd)])
+    f, _ = synthetic_nestings(b, [(h, smd)], st["real_html"], st["link_kinds"])
+    text = next((t for _, k, t in f if k == key), "")
+    used = [kv for kv in h if kv[1] in st["real_html"][0]] or h
+    return (used, smd), text, st["real_html"][0].replace("\x1f", "\n")
 
 
 def load_corpus():
@@ -333,6 +419,29 @@ def run(ctx):
         m2 = tie(b, [(h, smd)])[0]
         ctx.tie_broken("tie", "HTML of the real finish loop differs from the HTML rendered from the model's plan on %d/%d inputs; minimised: hrefs=%r markdown=%r real=%r model=%r"
                        % (len(mism), len(cases), h, smd, (m2[0][1] if m2 else real)[:400], (m2[0][2] if m2 else model)[:400]))
+    # ---- search on the REAL HTML of the tie's synthetic inputs (world-derived inputs are the documents already checked above)
+    real_html, link_kinds = tst.pop("real_html"), tst.pop("link_kinds")
+    syn0 = n_world_cases
+    found, sst = synthetic_nestings(b, cases[syn0:], real_html[syn0:], link_kinds[syn0:])
+    by_key = {}
+    for i, key, text in found:
+        by_key[key] = by_key.get(key, 0) + 1
+    sst["by_key"] = by_key
+    reported_md, n_new_md = set(), 0          # own replay (minimised markdown) even if a world already showed the class
+    for i, key, text in found:
+        known = ctx.known.is_known(ctx.prop, key)
+        if key in reported_md or (known and key in reported) or (not known and n_new_md >= 3):
+            continue
+        reported_md.add(key)
+        n_new_md += 0 if known else 1
+        case = cases[syn0 + i]
+        html = real_html[syn0 + i].replace("\x1f", "\n")
+        if not known:
+            case, t2, html = shrink_md(b, case, key)
+            text = t2 or text
+        ctx.violation(key, "real Markdown::finish on markdown %r with hrefs %r: %s; real HTML: %r" % (case[1], case[0], text, html[:400]),
+                      {"engine": "md", "hrefs": [list(kv) for kv in case[0]], "md": case[1], "key": key})
+    tst["search_on_real_html"] = sst
     tst.update({"world_derived_inputs": n_world_cases, "synthetic_inputs": n_syn, "inputs": len(cases)})
     ok_runs = dist["generator_ok"]
     ctx.coverage.update({
@@ -359,10 +468,17 @@ def replay(ctx, path):
     if not b["ok"]:
         print(b["log"]); return 1
     if rp["engine"] == "md":
-        m = tie(b, [([tuple(kv) for kv in rp["hrefs"]], rp["md"])])[0]
+        case = ([tuple(kv) for kv in rp["hrefs"]], rp["md"])
+        m, st, _ = tie(b, [case])
+        f, _ = synthetic_nestings(b, [case], st["real_html"], st["link_kinds"])
         print("hrefs:", rp["hrefs"]); print("markdown:", repr(rp["md"]))
-        print("verdict:", ("real %r model %r" % (m[0][1], m[0][2])) if m else "model and real finish agree")
-        return 1 if m else 0
+        print("real HTML:", st["real_html"][0].replace("\x1f", "\n"))
+        print("tie:", ("real finish differs from the model: model HTML %r" % m[0][2]) if m else "model and real finish agree")
+        bad = [(k, t) for _, k, t in f if not rp.get("key") or k == rp["key"]] if rp.get("key") else [(k, t) for _, k, t in f]
+        for k, t in bad:
+            print("violation key=%s : %s" % (k, t))
+        print("verdict:", "VIOLATED" if bad else "no generated link is opened inside a link")
+        return 1 if bad else 0
     info = worldinfo(b, [(rp["wit"], rp["world"])])[0]
     print(rp["wit"]); print("options:", repr(rp["opts"])); print("wit-parser:", info)
     if not info.startswith("ok "):
